@@ -72,10 +72,88 @@ Proof.
   rewrite split_eq_some by exact H3. rewrite H2. reflexivity.
 Qed.
 
-Lemma short_ok_parts ch : short_ok ch = true -> ch < 128 /\ ch <> DASH.
+Lemma short_ok_parts ch : short_ok ch = true -> scalar ch = true /\ ch <> DASH.
 Proof.
   unfold short_ok. intros H. apply andb_prop in H. destruct H as [H1 H2].
-  split; [apply N.ltb_lt; exact H1|]. intros E. apply N.eqb_eq in E. rewrite E in H2. discriminate.
+  split; [exact H1|]. intros E. apply N.eqb_eq in E. rewrite E in H2. discriminate.
+Qed.
+
+(** encoding then decoding one character (the converse of [Utf8.utf8_step_encode]) *)
+Ltac Zify.zify_post_hook ::= Z.to_euclidean_division_equations.
+Lemma utf8_step_enc c r : scalar c = true ->
+  utf8_step (utf8_encode c ++ r) = Some (c, length (utf8_encode c)).
+Proof.
+  unfold scalar. intros H. apply andb_prop in H. destruct H as [H1 H2]. apply N.ltb_lt in H1.
+  unfold utf8_encode.
+  destruct (c <? 128) eqn:E1.
+  - cbn [app utf8_step]. rewrite E1. reflexivity.
+  - apply N.ltb_ge in E1. destruct (c <? 2048) eqn:E2.
+    + apply N.ltb_lt in E2. cbn [app utf8_step length].
+      replace (192 + c / 64 <? 128) with false by (symmetry; apply N.ltb_ge; lia).
+      replace ((194 <=? 192 + c / 64) && (192 + c / 64 <=? 223)) with true
+        by (symmetry; apply andb_true_iff; split; apply N.leb_le; lia).
+      unfold cont.
+      replace ((128 <=? 128 + c mod 64) && (128 + c mod 64 <=? 191)) with true
+        by (symmetry; apply andb_true_iff; split; apply N.leb_le; lia).
+      f_equal. f_equal. lia.
+    + apply N.ltb_ge in E2. destruct (c <? 65536) eqn:E3.
+      * apply N.ltb_lt in E3. cbn [app utf8_step length].
+        replace (224 + c / 4096 <? 128) with false by (symmetry; apply N.ltb_ge; lia).
+        replace ((194 <=? 224 + c / 4096) && (224 + c / 4096 <=? 223)) with false
+          by (symmetry; apply andb_false_iff; right; apply N.leb_gt; lia).
+        replace ((224 <=? 224 + c / 4096) && (224 + c / 4096 <=? 239)) with true
+          by (symmetry; apply andb_true_iff; split; apply N.leb_le; lia).
+        assert (NS : ~ (55296 <= c < 57344)).
+        { intros [A B]. apply N.leb_le in A. apply N.ltb_lt in B. rewrite A, B in H2. discriminate. }
+        unfold cont.
+        replace ((if 224 + c / 4096 =? 224 then 160 else 128) <=? 128 + (c / 64) mod 64) with true
+          by (symmetry; apply N.leb_le; destruct (224 + c / 4096 =? 224) eqn:Q; [apply N.eqb_eq in Q|]; lia).
+        replace (128 + (c / 64) mod 64 <=? (if 224 + c / 4096 =? 237 then 159 else 191)) with true
+          by (symmetry; apply N.leb_le; destruct (224 + c / 4096 =? 237) eqn:Q; [apply N.eqb_eq in Q|]; lia).
+        replace ((128 <=? 128 + c mod 64) && (128 + c mod 64 <=? 191)) with true
+          by (symmetry; apply andb_true_iff; split; apply N.leb_le; lia).
+        cbn [andb]. f_equal. f_equal. lia.
+      * apply N.ltb_ge in E3. cbn [app utf8_step length].
+        replace (240 + c / 262144 <? 128) with false by (symmetry; apply N.ltb_ge; lia).
+        replace ((194 <=? 240 + c / 262144) && (240 + c / 262144 <=? 223)) with false
+          by (symmetry; apply andb_false_iff; right; apply N.leb_gt; lia).
+        replace ((224 <=? 240 + c / 262144) && (240 + c / 262144 <=? 239)) with false
+          by (symmetry; apply andb_false_iff; right; apply N.leb_gt; lia).
+        replace ((240 <=? 240 + c / 262144) && (240 + c / 262144 <=? 244)) with true
+          by (symmetry; apply andb_true_iff; split; apply N.leb_le; lia).
+        unfold cont.
+        replace ((if 240 + c / 262144 =? 240 then 144 else 128) <=? 128 + (c / 4096) mod 64) with true
+          by (symmetry; apply N.leb_le; destruct (240 + c / 262144 =? 240) eqn:Q; [apply N.eqb_eq in Q|]; lia).
+        replace (128 + (c / 4096) mod 64 <=? (if 240 + c / 262144 =? 244 then 143 else 191)) with true
+          by (symmetry; apply N.leb_le; destruct (240 + c / 262144 =? 244) eqn:Q; [apply N.eqb_eq in Q|]; lia).
+        replace ((128 <=? 128 + (c / 64) mod 64) && (128 + (c / 64) mod 64 <=? 191)) with true
+          by (symmetry; apply andb_true_iff; split; apply N.leb_le; lia).
+        replace ((128 <=? 128 + c mod 64) && (128 + c mod 64 <=? 191)) with true
+          by (symmetry; apply andb_true_iff; split; apply N.leb_le; lia).
+        cbn [andb]. f_equal. f_equal. lia.
+Qed.
+
+Lemma enc_cons c : exists b t, utf8_encode c = b :: t /\ (c < 128 -> b = c) /\ (128 <= c -> 192 <= b).
+Proof.
+  unfold utf8_encode. destruct (c <? 128) eqn:E1; [|destruct (c <? 2048); [|destruct (c <? 65536)]];
+    eexists; eexists; (split; [reflexivity|]); split; intros H;
+    try (apply N.ltb_lt in E1); try (apply N.ltb_ge in E1); try reflexivity; lia.
+Qed.
+
+Lemma sf_next_enc ch (r : bytes) : scalar ch = true -> sf_next (utf8_encode ch ++ r) = Some (inl ch, r).
+Proof.
+  intros H. unfold sf_next. rewrite (utf8_step_enc ch r H).
+  destruct (enc_cons ch) as [b [t [E _]]]. rewrite E at 1. cbn [app].
+  rewrite skipn_app, skipn_all, Nat.sub_diag. reflexivity.
+Qed.
+Lemma sf_next_enc0 ch : scalar ch = true -> sf_next (utf8_encode ch) = Some (inl ch, []).
+Proof. intros H. rewrite <- (app_nil_r (utf8_encode ch)) at 1. apply sf_next_enc. exact H. Qed.
+
+(** the first byte of a character other than [-] is not [-] *)
+Lemma enc_head ch : ch <> DASH -> exists b t, utf8_encode ch = b :: t /\ b <> DASH.
+Proof.
+  intros Hne. destruct (enc_cons ch) as [b [t [E [H1 H2]]]]. exists b, t. split; [exact E|].
+  destruct (N.lt_ge_cases ch 128) as [L|G]; [rewrite (H1 L); exact Hne|]. specialize (H2 G). unfold DASH. lia.
 Qed.
 
 (** a token [-x...] whose first character is not [-] *)
@@ -416,10 +494,15 @@ Qed.
 
 (** ** short clusters *)
 Definition tail_bytes (t : ctail) : bytes :=
-  match t with TNone => [] | TAtt o v => o :: v | TEq o v => o :: EQ :: v | TSep o _ => [o] end.
+  match t with
+  | TNone => []
+  | TAtt o v => utf8_encode o ++ v
+  | TEq o v => utf8_encode o ++ EQ :: v
+  | TSep o _ => utf8_encode o
+  end.
 Definition tail_vals (t : ctail) : list bytes := match t with TSep _ vs => vs | _ => [] end.
 
-Lemma render_cluster fl t : render_item (ItCluster fl t) = (DASH :: fl ++ tail_bytes t) :: tail_vals t.
+Lemma render_cluster fl t : render_item (ItCluster fl t) = (DASH :: enc_shorts fl ++ tail_bytes t) :: tail_vals t.
 Proof. destruct t; cbn [render_item tail_bytes tail_vals]; rewrite ?app_nil_r; reflexivity. Qed.
 
 Lemma psa_start (r : bytes) pst pos vaf st : pst_ok pst -> fs_skip st = 0 ->
@@ -444,7 +527,7 @@ Qed.
 Definition cl_flag (ch : N) : bool := short_ok ch && is_flag (get_short c ch).
 
 Lemma cl_flag_parts ch : cl_flag ch = true ->
-  ch < 128 /\ ch <> DASH /\ exists a, get_short c ch = Some a /\ a_takes_value a = false.
+  scalar ch = true /\ ch <> DASH /\ exists a, get_short c ch = Some a /\ a_takes_value a = false.
 Proof.
   unfold cl_flag. intros H. apply andb_prop in H. destruct H as [H1 H2].
   destruct (short_ok_parts ch H1) as [L D]. split; [exact L|]. split; [exact D|].
@@ -453,20 +536,22 @@ Proof.
 Qed.
 
 Lemma short_loop_flags : forall fl (tl : bytes) fuel ret vaf st,
-  forallb cl_flag fl = true -> (length (fl ++ tl) < fuel)%nat ->
-  short_loop c fuel (fl ++ tl) ret vaf st =
+  forallb cl_flag fl = true -> (length (enc_shorts fl ++ tl) < fuel)%nat ->
+  short_loop c fuel (enc_shorts fl ++ tl) ret vaf st =
   (do st' <- flags_step c fl st;
    short_loop c (S (length tl)) tl (if is_nil fl then ret else PRValuesDone) (if is_nil fl then vaf else true) st').
 Proof.
   induction fl as [|ch fl IH]; intros tl fuel ret vaf st Hfl Hf.
-  - cbn [app flags_step rbind is_nil]. cbn [app] in Hf. apply short_loop_fuel; lia.
+  - cbn [enc_shorts flat_map app flags_step rbind is_nil]. cbn [enc_shorts flat_map app] in Hf. apply short_loop_fuel; lia.
   - cbn [forallb] in Hfl. apply andb_prop in Hfl. destruct Hfl as [Hch Hfl].
     destruct (cl_flag_parts ch Hch) as [L [_ [a [Hg Htv]]]].
-    destruct fuel as [|f]; [cbn in Hf; lia|]. cbn [app].
-    rewrite (short_loop_flag_step c f (ch :: fl ++ tl) ch (fl ++ tl) a ret vaf st (sf_next_ascii ch _ L) Hg Htv).
+    destruct fuel as [|f]; [cbn in Hf; lia|]. unfold enc_shorts in *. cbn [flat_map] in *. rewrite <- app_assoc in *.
+    rewrite (short_loop_flag_step c f _ ch _ a ret vaf st (sf_next_enc ch _ L) Hg Htv).
     cbn [flags_step is_nil]. rewrite Hg. unfold flag_step.
     destruct (react c (Some IShort) SCmdLine a [] None st) as [[s0 p0]|e s|k] eqn:E; cbn [rbind fst snd]; try reflexivity.
-    rewrite IH; [|exact Hfl|cbn [app length] in Hf; lia].
+    assert (Hlen : (length (flat_map utf8_encode fl ++ tl) < f)%nat).
+    { destruct (enc_cons ch) as [b [t0 [Eb _]]]. rewrite Eb in Hf. cbn [app length] in Hf. rewrite app_length in Hf. lia. }
+    rewrite IH; [|exact Hfl|exact Hlen].
     rewrite (react_ok_pr _ _ _ _ _ _ _ _ _ E).
     destruct (flags_step c fl s0) as [s1|e s|k]; cbn [rbind]; try reflexivity.
     destruct fl; reflexivity.
@@ -517,18 +602,18 @@ Proof.
     destruct (conv_args a (get_short_in o a Hg)) as [_ [_ [Hre _]]].
     destruct v as [|b t]; [discriminate|]. cbn [hd] in H4.
     assert (Hb : b <> 61). { intros ->. discriminate. }
-    rewrite (short_loop_opt_attached c _ (o :: b :: t) o a b t ret vaf st (sf_next_ascii o _ L) Hb Hg Htv Hre).
+    rewrite (short_loop_opt_attached c _ (utf8_encode o ++ b :: t) o a b t ret vaf st (sf_next_enc o _ L) Hb Hg Htv Hre).
     rewrite parse_opt_value_attached by exact Hre. unfold att_step. unfold bytes in *.
     destruct (react c (Some IShort) SCmdLine a [b :: t] None st) as [x|e s|n]; reflexivity.
   - apply andb_prop in Hw. destruct Hw as [H1 H2].
     destruct (short_ok_parts o H1) as [L _]. destruct (is_opt_parts _ H2) as [a [Hg Htv]]. rewrite Hg.
     destruct (conv_args a (get_short_in o a Hg)) as [_ [_ [Hre _]]].
-    rewrite (short_loop_eq_attached _ (o :: EQ :: v) o a v ret vaf st (sf_next_ascii o _ L) Hg Htv Hre).
+    rewrite (short_loop_eq_attached _ (utf8_encode o ++ EQ :: v) o a v ret vaf st (sf_next_enc o _ L) Hg Htv Hre).
     unfold att_step. destruct (react c (Some IShort) SCmdLine a [v] None st) as [x|e s|n]; reflexivity.
   - apply andb_prop in Hw. destruct Hw as [H1 H2].
     destruct (short_ok_parts o H1) as [L _]. destruct (sep_ok_parts _ _ H2) as [a [Hg [Htv _]]]. rewrite Hg.
     destruct (conv_args a (get_short_in o a Hg)) as [_ [_ [Hre _]]].
-    rewrite (short_loop_opt_alone c _ [o] o a ret vaf st (sf_next_ascii o _ L) Hg Htv).
+    rewrite (short_loop_opt_alone c _ (utf8_encode o) o a ret vaf st (sf_next_enc0 o L) Hg Htv).
     rewrite pov_open by exact Hre.
     destruct (sep_step c IShort a [] st) as [x|e s|n]; reflexivity.
 Qed.
@@ -536,7 +621,7 @@ Qed.
 Lemma psa_cluster fl t pst pos vaf st :
   pst_ok pst -> fs_skip st = 0 -> forallb cl_flag fl = true -> wf_tail c t = true ->
   (is_nil fl && match t with TNone => true | _ => false end) = false ->
-  parse_short_arg c (fl ++ tail_bytes t) pst pos vaf st = (do st' <- flags_step c fl st; tail_res t st').
+  parse_short_arg c (enc_shorts fl ++ tail_bytes t) pst pos vaf st = (do st' <- flags_step c fl st; tail_res t st').
 Proof.
   intros Hp Hskip Hfl Hw Hne. rewrite (psa_start _ pst pos vaf st Hp Hskip).
   rewrite (short_loop_flags fl (tail_bytes t) _ PRNoArg vaf st Hfl) by lia.
@@ -560,16 +645,21 @@ Qed.
 (** the first character of a cluster token is a short name, hence not [-] *)
 Lemma cluster_head fl t : forallb cl_flag fl = true -> wf_tail c t = true ->
   (is_nil fl && match t with TNone => true | _ => false end) = false ->
-  exists ch r, fl ++ tail_bytes t = ch :: r /\ ch <> DASH.
+  exists ch r, enc_shorts fl ++ tail_bytes t = ch :: r /\ ch <> DASH.
 Proof.
   intros Hfl Hw Hne. destruct fl as [|ch fl].
-  - destruct t as [|o v|o v|o vs]; cbn [tail_bytes app wf_tail] in *; [discriminate| | |].
+  - cbn [enc_shorts flat_map app].
+    destruct t as [|o v|o v|o vs]; cbn [tail_bytes app wf_tail] in *; [discriminate| | |].
     + apply andb_prop in Hw. destruct Hw as [Hw _]. apply andb_prop in Hw. destruct Hw as [Hw _]. apply andb_prop in Hw. destruct Hw as [H1 _].
-      exists o, v. split; [reflexivity|apply (short_ok_parts o H1)].
-    + apply andb_prop in Hw. destruct Hw as [H1 _]. exists o, (EQ :: v). split; [reflexivity|apply (short_ok_parts o H1)].
-    + apply andb_prop in Hw. destruct Hw as [H1 _]. exists o, []. split; [reflexivity|apply (short_ok_parts o H1)].
+      destruct (enc_head o (proj2 (short_ok_parts o H1))) as [b [t0 [E D]]]. rewrite E. exists b, (t0 ++ v). split; [reflexivity|exact D].
+    + apply andb_prop in Hw. destruct Hw as [H1 _].
+      destruct (enc_head o (proj2 (short_ok_parts o H1))) as [b [t0 [E D]]]. rewrite E. exists b, (t0 ++ EQ :: v). split; [reflexivity|exact D].
+    + apply andb_prop in Hw. destruct Hw as [H1 _].
+      destruct (enc_head o (proj2 (short_ok_parts o H1))) as [b [t0 [E D]]]. rewrite E. exists b, t0. split; [reflexivity|exact D].
   - cbn [forallb] in Hfl. apply andb_prop in Hfl. destruct Hfl as [Hch _].
-    destruct (cl_flag_parts ch Hch) as [_ [D _]]. exists ch, (fl ++ tail_bytes t). split; [reflexivity|exact D].
+    destruct (cl_flag_parts ch Hch) as [_ [D _]]. destruct (enc_head ch D) as [b [t0 [E Db]]].
+    unfold enc_shorts. cbn [flat_map]. rewrite E. exists b, ((t0 ++ flat_map utf8_encode fl) ++ tail_bytes t).
+    split; [reflexivity|exact Db].
 Qed.
 
 Lemma tail_step_values t st (rest : list bytes) pos : wf_tail c t = true ->
@@ -591,7 +681,7 @@ Proof.
 Qed.
 
 Lemma loop_cluster fl t (rest : list bytes) pst pos vaf st :
-  pst_ok pst -> fs_skip st = 0 -> nosub c (DASH :: fl ++ tail_bytes t) = true ->
+  pst_ok pst -> fs_skip st = 0 -> nosub c (DASH :: enc_shorts fl ++ tail_bytes t) = true ->
   forallb cl_flag fl = true -> wf_tail c t = true ->
   (is_nil fl && match t with TNone => true | _ => false end) = false ->
   parse_loop c (render_item (ItCluster fl t) ++ rest) (mkL pst pos vaf false) st =
